@@ -2,6 +2,7 @@
 // Every probe runs in a forked child of a NON-sanitized build so the raw signal is observed; the expected
 // outcome comes from a four-state model (RW / RO / NONE / freed) of the documented behaviour.
 #include "vh_main.hpp"
+#include "giant.hpp"
 #include <sys/wait.h>
 #include <sys/mman.h>
 #include <sys/resource.h>
@@ -15,7 +16,8 @@ const char *PN[] = { "ok_rw", "over_read", "over_write", "under_write_then_free"
 
 struct Case {
     size_t size; std::string hist; int probe; int k; bool array; size_t count;
-    KV kv() const { KV kv; kv.s("kind", "probe").u("size", size).s("hist", hist.empty() ? "-" : hist).s("probe", PN[probe]).u("k", k).u("array", array).u("count", count); return kv; }
+    int sigmode = 0;     // disposition of SIGSEGV while sodium_free() runs: 0 default, 1 ignored, 2 blocked, 3 a handler that returns ("terminates the process" must not depend on it)
+    KV kv() const { KV kv; kv.s("kind", "probe").u("size", size).s("hist", hist.empty() ? "-" : hist).s("probe", PN[probe]).u("k", k).u("array", array).u("count", count).u("sigmode", sigmode); return kv; }
 };
 
 volatile unsigned char sink;
@@ -40,7 +42,12 @@ int child(const Case &c) {
         return 0;
     case OVER_READ: sink = p[size]; return 20;             // must not get here
     case OVER_WRITE: p[size] = 1; return 21;
-    case UNDER_WRITE_FREE: p[-c.k] ^= 0xff; sodium_free(p); return 22;
+    case UNDER_WRITE_FREE:
+        p[-c.k] ^= 0xff;
+        if (c.sigmode == 1) signal(SIGSEGV, SIG_IGN);
+        else if (c.sigmode == 2) { sigset_t ss; sigemptyset(&ss); sigaddset(&ss, SIGSEGV); sigprocmask(SIG_BLOCK, &ss, nullptr); }
+        else if (c.sigmode == 3) signal(SIGSEGV, [](int) {});
+        sodium_free(p); return 22;
     case STATE_READ_FIRST: sink = p[0]; return 0;
     case STATE_READ_LAST: sink = p[size - 1]; return 0;
     case STATE_WRITE_FIRST: p[0] = 7; return 0;
@@ -70,7 +77,9 @@ int expected(const Case &c) {
     return 0;
 }
 
+uint64_t g_giant_skipped = 0;
 bool run(const Case &c, std::string &msg) {
+    if (c.size >= ((size_t) 1 << 30) && !giant::have_memory(c.size)) { g_giant_skipped++; return true; }      // 4 GiB regions are filled by the library: real memory
     fflush(stdout); fflush(stderr);
     pid_t pid = fork();
     if (pid == 0) { inflight().active = false; _exit(child(c)); }
@@ -85,12 +94,12 @@ bool run(const Case &c, std::string &msg) {
         snprintf(b, sizeof b, "size=%zu hist=%s probe=%s: the access must fault, got status 0x%x (exit %d / signal %d)", c.size, c.hist.c_str(), PN[c.probe], st, WIFEXITED(st) ? WEXITSTATUS(st) : -1, WIFSIGNALED(st) ? WTERMSIG(st) : 0);
     } else {
         if (WIFSIGNALED(st) && (WTERMSIG(st) == SIGSEGV || WTERMSIG(st) == SIGABRT || WTERMSIG(st) == SIGKILL)) return true;
-        snprintf(b, sizeof b, "size=%zu: byte %d before the region was altered but sodium_free did not terminate the process (status 0x%x)", c.size, c.k, st);
+        snprintf(b, sizeof b, "size=%zu: byte %d before the region was altered but sodium_free did not terminate the process (status 0x%x; SIGSEGV %s)", c.size, c.k, st, c.sigmode == 0 ? "default" : c.sigmode == 1 ? "ignored" : c.sigmode == 2 ? "blocked" : "handled by a handler that returns");
     }
     msg = b; return false;
 }
 
-void go(Ctx &ctx, const Case &c, bool nt) { exec_case(ctx, c, run, mix64(mix64(mix64(c.size, hash_str(c.hist)), c.probe), mix64(c.k, c.count)), nt); }
+void go(Ctx &ctx, const Case &c, bool nt) { exec_case(ctx, c, run, mix64(mix64(mix64(c.size, hash_str(c.hist)), c.probe), mix64(mix64(c.k, c.sigmode), c.count)), nt); }
 
 void explore_sizes(Ctx &ctx) {
     size_t page = (size_t) sysconf(_SC_PAGESIZE);
@@ -107,6 +116,7 @@ void explore_sizes(Ctx &ctx) {
         if (near || ctx.thorough()) { for (int k = 1; k <= 16; k++) go(ctx, Case{ size, "", UNDER_WRITE_FREE, k, false, 0 }, nt); }
         else go(ctx, Case{ size, "", UNDER_WRITE_FREE, 1 + (int) (size % 16), false, 0 }, nt);
         if (near) go(ctx, Case{ size, "", UNDER_READ_PAGE, 0, false, 0 }, nt);
+        if (near && size % 3 == 0) for (int sm = 1; sm <= 3; sm++) { Case c{ size, "", UNDER_WRITE_FREE, 1 + (int) ((size + (size_t) sm) % 16), false, 0 }; c.sigmode = sm; go(ctx, c, true); }
     }
     // allocarray with exact products
     for (size_t count : { 1u, 2u, 3u, 7u, 64u })
@@ -115,6 +125,31 @@ void explore_sizes(Ctx &ctx) {
             go(ctx, Case{ count * esz, "", OK_RW, 0, true, count }, true);
             go(ctx, Case{ count * esz, "", OVER_WRITE, 0, true, count }, true);
         }
+}
+
+// regions of 4 GiB and more (thorough tier, first round): sizes and element products that do not fit 32 bits; same probes as the small sizes
+void explore_giant(Ctx &ctx) {
+    if (!ctx.thorough() || !giant::first_round() || std::string(VERIF_VARIANT) != "native") { ctx.notes["giant_allocations"] = "thorough tier, native variant, first round only"; return; }
+    size_t page = (size_t) sysconf(_SC_PAGESIZE); const size_t G = (size_t) 1 << 32;
+    uint64_t idx = 0;
+    auto mine2 = [&](uint64_t i) { return ctx.worker == (int) (i % (uint64_t) std::min(ctx.nworkers, 2)); };     // every probe fills 4 GiB of real memory: two at a time per build
+    for (size_t size : { G - 1, G, G + 17, G + page + 1 }) {
+        if (!mine2(idx++)) continue;
+        go(ctx, Case{ size, "", OK_RW, 0, false, 0 }, true);
+        go(ctx, Case{ size, "", OVER_WRITE, 0, false, 0 }, true);
+        go(ctx, Case{ size, "", OVER_READ, 0, false, 0 }, true);
+        go(ctx, Case{ size, "", UNDER_WRITE_FREE, 1 + (int) (size % 16), false, 0 }, true);
+        go(ctx, Case{ size, "", UNDER_READ_PAGE, 0, false, 0 }, true);
+        go(ctx, Case{ size, "NW", STATE_WRITE_LAST, 0, false, 0 }, true);
+        go(ctx, Case{ size, "R", STATE_WRITE_LAST, 0, false, 0 }, true);
+    }
+    for (size_t count : { (size_t) 65537, (size_t) 3, ((size_t) 1 << 31) + 1 }) {       // exact products above 2^32 with factors below / above 2^32
+        size_t esz = count == 65537 ? 65537 : count == 3 ? ((size_t) 1 << 31) - 5 : 2;
+        if (!mine2(idx++)) continue;
+        go(ctx, Case{ count * esz, "", OK_RW, 0, true, count }, true);
+        go(ctx, Case{ count * esz, "", OVER_WRITE, 0, true, count }, true);
+    }
+    ctx.notes["giant_allocations_skipped_no_memory"] = std::to_string(g_giant_skipped);
 }
 
 void explore_histories(Ctx &ctx) {
@@ -203,12 +238,12 @@ bool replay(const KV &k, std::string &msg) {
     if (k.gs("kind") == "arrok") { ArrOkCase c{ (size_t) k.gu("a"), (size_t) k.gu("b") }; return run_arrok(c, msg); }
     Case c; c.size = k.gu("size"); c.hist = k.gs("hist") == "-" ? "" : k.gs("hist"); c.probe = 0;
     for (int i = 0; i < NPROBE; i++) if (k.gs("probe") == PN[i]) c.probe = i;
-    c.k = (int) k.gu("k"); c.array = k.gu("array"); c.count = k.gu("count");
+    c.k = (int) k.gu("k"); c.array = k.gu("array"); c.count = k.gu("count"); c.sigmode = k.has("sigmode") ? (int) k.gu("sigmode") : 0;
     return run(c, msg);
 }
 
 }  // namespace
 
 std::vector<Sub> vh_subs() {
-    return { { "sizes", explore_sizes, replay }, { "histories", explore_histories, replay }, { "limits", explore_limits, replay } };
+    return { { "sizes", explore_sizes, replay }, { "giant_allocations", explore_giant, replay }, { "histories", explore_histories, replay }, { "limits", explore_limits, replay } };
 }
